@@ -36,7 +36,7 @@ PROP_INVS = {
     "C02": ["Prefix", "PeekFaithful", "ReadOverrun", "DataAfterEof", "EarlyEof", "Stall", "SpuriousReset",
             "ErrorKind", "NoPanic", "PrefixInv", "EofInv"],
     "C12": ["OkWithoutAccept", "RefusedThoughAccepted", "Hang", "SpuriousRefusal", "AcceptHang", "PhantomAccept", "AcceptedDead",
-            "AcceptOrder", "Mirror", "Reclaimed", "ErrorKind", "NoPanic", "Prefix"],
+            "AcceptOrder", "Mirror", "Reclaimed", "Orphan", "ErrorKind", "NoPanic", "Prefix"],
 }
 
 _TCP = dict(impl="MsgTcp", gen="MsgTcpGen", ptrace="MsgTcpPropTrace", itrace="MsgTcpTrace",
@@ -84,7 +84,7 @@ def tcp_consts(**kw):
 
 
 def conn_consts(**kw):
-    c = tcp_consts(MaxConn=2, NH=3, Cap=2, Pre=False, Alpha=set(CONN_OPS), DestKinds={"srv", "none"},
+    c = tcp_consts(MaxConn=2, NH=3, Cap=2, Pre=False, Alpha=set(CONN_OPS), DestKinds={"srv", "none", "unspec"},
                    BindKinds={"any", "lo"}, MaxWrites=1, MaxAct=8)
     c.update(kw)
     return c
@@ -111,8 +111,8 @@ def mc_configs(pid, tier):
         cfgs = [
             ("mc_conn", conn_consts(MaxAct=8 if q else 10)),
             # nonce exchange and the last clause (dropped streams are not counted): one client host
-            ("mc_conn_data", conn_consts(NH=2, Alpha={"bind", "connect", "deliver", "accept", "poll", "write", "read",
-                                                       "drop_stream", "drop_half"},
+            ("mc_conn_data", conn_consts(NH=2, Alpha={"bind", "connect", "deliver", "accept", "poll", "cancel", "quiet",
+                                                       "write", "read", "drop_stream", "drop_half"},
                                          DestKinds={"srv"}, BindKinds={"any"}, MaxAct=11 if q else 12)),
         ]
         cfgs.append(("mc_conn_burst", conn_consts(MaxConn=3 if q else 4, NH=2, Cap=3 if q else 4,
@@ -159,8 +159,8 @@ def gen_configs(pid, tier):
     if pid == "C12":
         cfgs = [
             ("gen_conn", conn_consts(MaxAct=5 if q else 7), dict(v6=0), None),
-            ("gen_conn_data", conn_consts(NH=2, Alpha={"bind", "connect", "deliver", "accept", "poll", "write", "read",
-                                                        "drop_stream"},
+            ("gen_conn_data", conn_consts(NH=2, Alpha={"bind", "connect", "deliver", "accept", "poll", "cancel", "quiet",
+                                                        "write", "read", "drop_stream"},
                                           DestKinds={"srv"}, BindKinds={"any"}, MaxAct=10 if q else 11), dict(v6=1), None),
             # bursts: 3-4 requests pending at one listener at the same time before / between accepts
             ("gen_conn_burst", conn_consts(MaxConn=3, NH=2 if q else 3, Cap=3, Alpha={"bind", "connect", "deliver", "accept", "cancel"},
@@ -215,7 +215,7 @@ def trace_consts(pid, rc):
     if pid in ("C02", "C12"):
         prop = dict(MaxConn=rc["maxconn"], NH=rc["nh"], PortIds=set(rc["ports"]))
         impl = dict(prop, Cap=rc["cap"], FinRoom=1, RstOnFin=False, Pre=False, Alpha=set(ALL_TCP_OPS) | {"quiet"},
-                    DestKinds={"srv", "none"}, BindKinds={"any", "lo"}, WriteLens=set(range(0, 17)),
+                    DestKinds={"srv", "none", "unspec"}, BindKinds={"any", "lo"}, WriteLens=set(range(0, 17)),
                     ReadSizes=set(range(0, 17)), PeekSizes=set(range(0, 17)), NPorts=rc.get("nports", 0), MaxWrites=10 ** 9,
                     MaxAct=10 ** 9)
         return prop, impl
@@ -343,7 +343,7 @@ NEED_OUTCOMES = {
     "gen_fin_full": ["read:data", "read:eof", "read:pending", "deliver:fin"],
     "gen_conn": ["connect:pending", "connect:refused", "poll:ok", "poll:refused", "poll:pending", "accept:ok",
                  "accept:pending", "bind:inuse", "deliver:syn"],
-    "gen_conn_data": ["accept:ok", "poll:ok", "read:data"],
+    "gen_conn_data": ["accept:ok", "poll:ok", "read:data", "read:reset", "deliver:rst"],
     "gen_conn_burst": ["accept:ok", "accept:pending", "deliver:syn"],
     "gen_conn_reuse": ["accept:ok", "poll:ok", "deliver:rst", "deliver:syn"],
     "gen_ports": ["AddrInUse", "Exhausted", "ConnectFailed"],
@@ -358,7 +358,8 @@ NEED_ACTIONS = {
     "mc_conn": ["Bind", "DropListener", "Connect", "DeliverSyn", "Accept", "Poll", "Cancel", "Partition", "Repair", "Tick"],
     "mc_conn_burst": ["Bind", "Connect", "DeliverSyn", "Accept", "Cancel"],
     "mc_conn_reuse": ["Bind", "Connect", "DeliverSyn", "DeliverRst", "Accept", "Poll", "Cancel", "DropListener"],
-    "mc_conn_data": ["Bind", "Connect", "DeliverSyn", "Accept", "Poll", "Write", "Read", "DropStream", "DeliverSeg"],
+    "mc_conn_data": ["Bind", "Connect", "DeliverSyn", "Accept", "Poll", "Cancel", "Quiet", "Write", "Read", "DropStream",
+                     "DeliverSeg", "DeliverRst"],
     "mc_ports": ["BindUdp", "BindTcp", "Connect", "AcceptIn", "Drop", "DropHalf", "Crash"],
     "mc_ports_r4": ["BindUdp", "BindTcp", "Connect", "AcceptIn", "Drop", "DropHalf", "Crash"],
     "mc_dns": ["Lookup", "Reverse", "Literal", "Regex"],
@@ -429,14 +430,9 @@ def run(pid, tier, seed, replay=None):
         ck.nontrivial += s["nontrivial"]
         for smp in s["samples"][:1]:
             ck.sample({"kind": "tlc behaviour replayed on the real Sim", "config": name, **smp})
-        nviol = 0
-        for k, d in enumerate(s["divergences"]):
-            if nviol >= 3:
-                log(f"[{pid}] {name}: {len(s['divergences']) - k} further result divergences not judged "
-                    f"(3 violations already reported for this configuration)")
-                break
-            if judge_divergence(ck, pid, name, consts, extra, d):
-                nviol += 1
+        judge_batch(ck, pid, name, consts, extra, s, bpath, tdir)
+        for d in [x for x in s["divergences"] if x.get("what") == "panic"][:3]:
+            judge_divergence(ck, pid, name, consts, extra, d)      # an undocumented panic: reported as it is
         ck.impl_drift += s["divergent"]
         for d in s.get("table_divergences", [])[:1]:
             log(f"[{pid}] drift (hook tables only): {json.dumps({k: v for k, v in d.items() if k != 'behaviour'})[:400]}")
@@ -596,6 +592,59 @@ def judge_divergence(ck, pid, name, consts, extra, d):
     log(f"[{pid}] drift: behaviour #{d.get('line')} diverged from the ImplSpec ({d.get('what')}) "
         f"but the PropSpec accepts the observation")
     return False
+
+
+def judge_batch(ck, pid, name, consts, extra, summary, bpath, tdir):
+    """Every behaviour on which the code left the ImplSpec in an observable way (result of a call,
+    stream count) is judged by the PropSpec: their recorded traces are concatenated (the reset event
+    of each carries the behaviour's line number) and validated in one TLC run; a rejection is
+    attributed to the run it occurs in, reported, and the rest is validated again (at most three
+    violations per configuration are reported)."""
+    path = os.path.join(tdir, "divs-all.ndjson")
+    if not summary.get("result_divergent") or not os.path.exists(path):
+        return
+    lines = open(path).read().splitlines()
+    if not lines:
+        return
+    if summary["result_divergent"] > len(summary.get("judged_lines", [])):
+        log(f"[{pid}] {name}: {summary['result_divergent']} result divergences, the first "
+            f"{len(summary['judged_lines'])} are judged (trace volume cap)")
+    behs = None
+    details = {d.get("line"): d for d in summary["divergences"]}
+    offset, nviol, round_ = 0, 0, 0
+    while offset < len(lines) and nviol < 3:
+        sub = lines[offset:]
+        tpath = os.path.join(tdir, f"divs-judge-{round_}.ndjson")
+        open(tpath, "w").write("\n".join(sub) + "\n")
+        round_ += 1
+        pr, _ = validate_trace(pid, tpath, replay_rc(pid, consts), f"{pid}_div", impl=False)
+        ck.add_tlc(pr, "trace_divergences")
+        if not rejected(pr):
+            break
+        starts = [i for i, l in enumerate(sub) if l.startswith('{"ev":"reset"')]
+        # TLC stops in the state after the offending event: that event is number d - 1 (1-based)
+        at = (pr.unmatched[0] - 2) if pr.unmatched else len(sub) - 1
+        at = max(0, min(at, len(sub) - 1))
+        run_start = max([i for i in starts if i <= at] or [0])
+        line = json.loads(sub[run_start]).get("line")
+        if behs is None:
+            behs = open(bpath).read().splitlines()
+        beh = json.loads(behs[line]) if line is not None and line < len(behs) else None
+        d = details.get(line, {"line": line})
+        payload = {"kind": "behaviour", "property": pid, "config": name, "consts": jsonable(consts), "extra": extra,
+                   "behaviour": beh, "divergence": {k: v for k, v in d.items() if k != "behaviour"},
+                   "violated_clause": pr.violated, "offending_event": json.loads(sub[at])}
+        ck.violation(payload)
+        nviol += 1
+        nxt = [i for i in starts if i > run_start]
+        if not nxt:
+            return
+        offset += nxt[0]
+    if nviol == 0:
+        log(f"[{pid}] drift: {len(summary.get('judged_lines', []))} behaviours of {name} diverged from the ImplSpec in a "
+            f"result, the PropSpec accepts every one of the observations")
+    elif offset < len(lines) and nviol >= 3:
+        log(f"[{pid}] {name}: further divergent behaviours not judged (3 violations already reported)")
 
 
 def replay_behaviour(ck, pid, rp, w, tag):
